@@ -67,6 +67,36 @@ def entries(F):
                     has_call = True
         if has_call:
             out.append(b)
+    # ... and every function that reaches one of those through calls of crate functions (draw_iter -> set_pixel ->
+    # write_command): an error can be dropped at any level (`self.set_pixel(..).ok();`)
+    ids = set(b["id"] for b in out)
+    cands = [b for b in F.bodies.values() if not F.is_mock(b) and b["kind"] in ("AssocFn", "Fn", "Closure") and b["id"] not in getattr(F, "prelude", {})]
+    changed = True
+    while changed:
+        changed = False
+        for b in cands:
+            if b["id"] in ids:
+                continue
+            hit = False
+            for blk in b["body"]["blocks"]:
+                t = blk["term"]
+                if t["k"] == "call" and t.get("callee") and t["callee"].get("def") in ids:
+                    hit = True
+            if not hit:
+                continue
+            tgt = b
+            while tgt is not None and tgt["kind"] == "Closure":
+                tgt = F.bodies.get(tgt.get("parent_fn"))
+            if tgt is None or F.is_mock(tgt):
+                continue
+            tr = (tgt["container"].get("trait") or "")
+            ids.add(b["id"])
+            changed = True
+            if tgt["id"] not in ids or tgt is b:
+                ids.add(tgt["id"])
+                if tgt["kind"] in ("AssocFn", "Fn") and not (tr.startswith("core::") and tr != "core::iter::traits::iterator::Iterator") \
+                        and all(o["id"] != tgt["id"] for o in out):
+                    out.append(tgt)
     return sorted(out, key=lambda b: b["id"])
 
 
@@ -104,6 +134,32 @@ def decide_atom(a, known, decisions, conds):
     if can0 and not can1:
         return 0
     return -1
+
+
+def really_followed(o, res, a_):
+    """annotate()'s `follower` flag counts events of alternatives this outcome did not take (the trace of a merged
+    state keeps them, with their conditions). Decide it per linear path instead: on some path that is feasible under
+    the outcome's facts, does a hardware event (or a loop that performs some) come after the event?"""
+    if not a_["follower"] or a_["in_loop"]:
+        return a_["follower"]
+    ev = a_["ev"]
+    f = o.state.facts
+    try:
+        paths = TR.linearize(o.state.trace, limit=2048)
+    except E.Undecided:
+        return True
+    for cond, items in paths:
+        if f.simplify(cond).const_value() == 0:
+            continue
+        idx = [i for i, it in enumerate(items) if it is ev]
+        if not idx:
+            continue
+        for it in items[idx[0] + 1:]:
+            if isinstance(it, E.Ev) and it.kind == "call":
+                return True
+            if isinstance(it, E.LoopMark) and it.loop_id in res.loops and any(TR._has_events(c["trace"], res.loops) for c in res.loops[it.loop_id]["cont"]):
+                return True
+    return False
 
 
 def is_result(v):
@@ -177,12 +233,19 @@ def run(R):
                         R.ob("C12-result-not-ignored", "%s|ignored|%s" % (tag, desc), ok,
                              "the result of %s is neither checked nor returned: a failure would be silently dropped" % desc, ev.where())
                         continue
+                    if failed == -1:
+                        # the outcome of the operation was looked at, but the path goes on the same way whether it failed
+                        # or not (e.g. `op().ok();`, `let _ = op();` after a match, `if op().is_err() {}`)
+                        R.ob("C12-stop-after-failure", "%s|either-way|%s" % (tag, desc), not really_followed(o, res, a_),
+                             "the call goes on with further hardware operations whether or not %s failed: a failure is dropped" % (desc,),
+                             ev.where(), sample={"fn": rec["pretty"], "op": desc, "decided": "no"})
+                        continue
                     if failed == 1:
                         nfail += 1
                         if o.kind == "panic":
                             bad_panic.append((desc, o.info))
                             continue
-                        R.ob("C12-stop-after-failure", "%s|stop|%s" % (tag, desc), not a_["follower"] or a_["in_loop"] and False,
+                        R.ob("C12-stop-after-failure", "%s|stop|%s" % (tag, desc), not really_followed(o, res, a_),
                              "after %s failed the call still performs hardware operations" % (desc,), ev.where(),
                              sample={"fn": rec["pretty"], "failing_op": desc, "events_after": a_["follower"]})
                         if ret_is_result:
